@@ -712,7 +712,7 @@ static void run_or(Out& out, const std::string& payload) {
             // the precision may move by one unit in the last place in the first cycle (1e-6 * (1 / (1e-6 / precision))): counted, not judged
             if (o2.real_bits != o.real_bits) out.count("oracle:oas-start-real-changed-in-first-cycle");
             compare(o2, shape3, o3, "third");
-            if (fail.empty() && o3.real_bits != o2.real_bits) fail = "write_oas:third-cycle-unit the START real changed from " + hex_u64(o2.real_bits) + " to " + hex_u64(o3.real_bits);
+            if (fail.empty() && o3.real_bits != o2.real_bits) fail = "read_oas:precision-drift the START real (1e-6 / library.precision) still changes between the second and the third file: from " + hex_u64(o2.real_bits) + " to " + hex_u64(o3.real_bits);
             if (fail.empty() && o3.npath == 1 && b2 != read_file(f3)) fail = "write_oas:third-cycle the third file differs from the second";
         }
     }
@@ -932,6 +932,46 @@ static void run_case(Out& out, const std::string& kind, const std::string& paylo
     else if (kind == "or") run_or(out, payload);
 }
 
+// fixed cases run before the random ones: the witnesses of the theorems' refuted clauses and of the recorded findings
+static void pinned(Out& out, bool gds, bool oas) {
+    double v[NV];
+    // (a) the slack witness: unit 1e-6, precision 1e-9, x = 0x3F76872B020C49BB: x * unit / precision < 5.5, 6 is written
+    {
+        double x = bits_dbl(0x3F76872B020C49BBULL);
+        double q[NV] = {x, 0, 1, 0, 1, 1, 0, 1, x, x, x, x, x, x, x, 0, 0, 1, 0};
+        if (gds) {
+            GFile gf; std::string fname;
+            if (run_gw(out, gw_payload(1e-6, 1e-9, q), &gf, &fname)) { int32_t k[NV]; if (gfile_ints(gf, k, true)) run_gr(out, gr_payload(gf.r0, gf.r1, k), fname.c_str()); }
+        }
+        if (oas) {
+            std::vector<uint8_t> bytes;
+            if (run_ow(out, gw_payload(1e-6, 1e-9, q), &bytes)) run_or(out, hex_bytes(bytes.data(), bytes.size()) + " | " + ofile_fields(parse_oas(bytes)));
+        }
+    }
+    // (b) unit 1e-4 / precision 1e-12 and 0.1 / 1e-10: the loaded unit is one ulp off (GDSII); precision 1.1e-8: drift (OASIS)
+    // (c) spine 9 -> 10 and 2048 -> 2049 grid steps with 1e-6 / 1e-9: merged by the save after the load
+    static const double us[] = {1e-4, 0.1, 1e-6, 1e-6, 1e-6}, ps[] = {1e-12, 1e-10, 1.1e-8, 1e-9, 1e-9};
+    static const int64_t s0[] = {100, 100, 100, 9, 2048};
+    for (int i = 0; i < 5; i++) {
+        double sc = us[i] / ps[i];
+        for (int j = 0; j < NV; j++) v[j] = (double)(10 * j + 3) / sc;
+        v[IP + 0] = 0; v[IP + 1] = 0; v[IP + 2] = 50 / sc; v[IP + 3] = 0; v[IP + 4] = 50 / sc; v[IP + 5] = 70 / sc; v[IP + 6] = 0; v[IP + 7] = 70 / sc;
+        v[IS] = (double)s0[i] / sc; v[IS + 1] = 0; v[IS + 2] = (double)(s0[i] + (i >= 3 ? 1 : 100)) / sc; v[IS + 3] = 0;
+        if (i == 4) v[IL] = 4503599627370474.0 / sc;  // OASIS: an integer near 2^52 does not come back (GDSII: beyond int32, wraps)
+        std::string payload = gw_payload(us[i], ps[i], v);
+        if (gds && i != 2) {
+            GFile gf; std::string fname;
+            if (i >= 3) { double w[NV]; memcpy(w, v, sizeof w); w[IL] = 77 / sc; payload = gw_payload(us[i], ps[i], w); }
+            if (run_gw(out, payload, &gf, &fname)) { int32_t k[NV]; if (gfile_ints(gf, k, true)) run_gr(out, gr_payload(gf.r0, gf.r1, k), fname.c_str()); }
+        }
+        if (oas && i >= 2) {
+            std::vector<uint8_t> bytes;
+            if (run_ow(out, gw_payload(us[i], ps[i], v), &bytes)) run_or(out, hex_bytes(bytes.data(), bytes.size()) + " | " + ofile_fields(parse_oas(bytes)));
+        }
+    }
+    out.count("pinned-cases-done");
+}
+
 int main(int argc, char** argv) {
     if (argc < 5) {
         fprintf(stderr, "usage: %s seed tier outdir corpusdir [replayfile]\n", argv[0]);
@@ -942,6 +982,9 @@ int main(int argc, char** argv) {
     Out out;
     out.open(argv[3]);
     set_error_logger(NULL);
+    const char* only = getenv("VERIF_KINDS");
+    auto enabled = [&](const std::string& k) { return !only || !*only || (std::string(",") + only + ",").find("," + k + ",") != std::string::npos; };
+    bool gds = enabled("gw") || enabled("gr"), oas = enabled("ow") || enabled("or");
     if (argc >= 6) {
         std::string kind, payload;
         if (load_replay(argv[5], kind, payload)) run_case(out, kind, payload);
@@ -949,18 +992,20 @@ int main(int argc, char** argv) {
         return 0;
     }
     for (auto& kp : load_corpus(argv[4])) run_case(out, kp.first, kp.second);
+    pinned(out, gds, oas);
     Rng g(seed * 0x100000001B3ULL + 12345);
     long n = tier == "thorough" ? 60000 : 700;
     for (long i = 0; i < n; i++) {
         switch (g.below(5)) {
-            case 0: case 1: run_chain(g, out, false); break;
-            case 2: case 3: run_chain(g, out, true); break;
-            default: {
-                uint64_t r0, r1;
-                int32_t k[NV];
-                gen_hand_gr(g, out, r0, r1, k);
-                run_gr(out, gr_payload(r0, r1, k), NULL);
-            }
+            case 0: case 1: if (gds) run_chain(g, out, false); else run_chain(g, out, true); break;
+            case 2: case 3: if (oas) run_chain(g, out, true); else run_chain(g, out, false); break;
+            default:
+                if (gds) {
+                    uint64_t r0, r1;
+                    int32_t k[NV];
+                    gen_hand_gr(g, out, r0, r1, k);
+                    run_gr(out, gr_payload(r0, r1, k), NULL);
+                } else run_chain(g, out, true);
         }
     }
     out.close();
